@@ -163,7 +163,7 @@ class Session:
             # matchers given with -f / -b reach the controller the way main.py hands them over: through parse_args
             from frontends.tui import parse_args
             # (inside GDB - here: with the stand-in gdb module loaded - the instance is the plugin and takes no mode option)
-            in_gdb = 'gdb' in sys.modules and m.util.check_gdb()
+            in_gdb = bool(m.util.check_gdb())
             argv = ['wayland-debug'] + ([] if in_gdb else ['-l', '/dev/null']) + (['-f', f_text] if f_text is not None else []) + (['-b', b_text] if b_text is not None else [])
             try:
                 a = parse_args(argv)
